@@ -184,7 +184,8 @@ impl Exec {
     }
 
     fn fail(&mut self, prop: &'static str, msg: String) {
-        if self.fails.len() < 200 {
+        // capped PER PROPERTY: a flood of failures of one oracle must not hide another property's
+        if self.fails.iter().filter(|f| f.prop == prop).count() < 40 {
             self.fails.push(OracleFail {
                 prop,
                 line_no: self.line_no,
